@@ -1,339 +1,19 @@
 package main
 
-// E7 — tree-form (TF) conformance: C10 (reads) and C11 (writes).
+// E7 — tree-form (TF) conformance: C10 (reads) and C11 (writes), decided on the SX path normal form by folding the paths
+// over ALL short path strings (alphabet {'.', '#', 'a', '1'}, length <= 5) and, for lists, all small lengths: for every such
+// input the feasible path must perform exactly the calls that step-by-step navigation prescribes, with concretely equal
+// segment / rest / index arguments. The string functions are folded by the standard library itself (trusted table).
 
 import (
 	"go/ast"
+	"go/constant"
 	"go/token"
 	"go/types"
+	"sort"
+	"strconv"
 	"strings"
 )
-
-type tfSkel struct {
-	c      *Ctx
-	fd     *ast.FuncDecl
-	ct     *Cont
-	name   string
-	method string
-	tf     types.Object
-	reject *ast.IfStmt
-	dot    types.Object
-	hash   types.Object
-	dotBr  *ast.IfStmt
-	hashBr *ast.IfStmt
-	order  []*ast.IfStmt // branch ifs in source order
-	leaf   []ast.Stmt
-	alias  map[types.Object]ast.Expr // single-assignment locals -> defining expression
-	multi  map[types.Object][]ast.Expr
-	why    string
-}
-
-func (s *tfSkel) ownSigil() rune {
-	if s.ct.IsList {
-		return '#'
-	}
-	return '.'
-}
-
-func extractTF(c *Ctx, ct *Cont, method string) *tfSkel {
-	name := "(*" + ct.Named.Obj().Name() + ")." + method
-	fd := c.Decl(name)
-	s := &tfSkel{c: c, ct: ct, name: name, method: method, fd: fd, alias: map[types.Object]ast.Expr{}, multi: map[types.Object][]ast.Expr{}}
-	if fd == nil {
-		s.why = "no implementation"
-		return s
-	}
-	if fd.Type.Params == nil || len(fd.Type.Params.List) == 0 || len(fd.Type.Params.List[0].Names) == 0 {
-		s.why = "no path parameter"
-		return s
-	}
-	s.tf = c.Info.Defs[fd.Type.Params.List[0].Names[0]]
-	// aliases: locals defined exactly once
-	counts := map[types.Object]int{}
-	ast.Inspect(fd.Body, func(n ast.Node) bool {
-		switch x := n.(type) {
-		case *ast.AssignStmt:
-			for i, l := range x.Lhs {
-				o := c.obj(l)
-				if o == nil {
-					continue
-				}
-				counts[o]++
-				if len(x.Lhs) == len(x.Rhs) {
-					s.multi[o] = append(s.multi[o], x.Rhs[i])
-				} else if len(x.Rhs) == 1 {
-					s.multi[o] = append(s.multi[o], x.Rhs[0])
-				}
-			}
-		case *ast.IncDecStmt:
-			if o := c.obj(x.X); o != nil {
-				counts[o] += 2
-			}
-		case *ast.UnaryExpr:
-			if x.Op == token.AND {
-				if o := c.obj(x.X); o != nil {
-					counts[o] += 2
-				}
-			}
-		}
-		return true
-	})
-	for o, n := range counts {
-		if o == s.tf {
-			continue
-		}
-		if n == 1 && len(s.multi[o]) == 1 {
-			s.alias[o] = s.multi[o][0]
-		}
-	}
-	body := fd.Body.List
-	if len(body) < 4 {
-		s.why = "body too short for the tree-form skeleton"
-		return s
-	}
-	r, ok := body[0].(*ast.IfStmt)
-	if !ok || r.Else != nil || r.Init != nil {
-		s.why = "first statement is not the reject test"
-		return s
-	}
-	s.reject = r
-	i := 1
-	// strip: tf = tf[1:]
-	as, ok := body[i].(*ast.AssignStmt)
-	if !ok || as.Tok != token.ASSIGN || len(as.Lhs) != 1 || c.obj(as.Lhs[0]) != s.tf {
-		s.why = "second statement is not `tf = tf[1:]`"
-		return s
-	}
-	se, ok := unparen(as.Rhs[0]).(*ast.SliceExpr)
-	if !ok || c.obj(se.X) != s.tf || se.High != nil || se.Low == nil {
-		s.why = "path is not stripped by tf[1:]"
-		return s
-	}
-	if k, ok := c.constInt(se.Low); !ok || k != 1 {
-		s.why = "path is not stripped by exactly one byte"
-		return s
-	}
-	i++
-	for ; i < len(body); i++ {
-		as, ok := body[i].(*ast.AssignStmt)
-		if !ok || as.Tok != token.DEFINE || len(as.Lhs) != 1 || len(as.Rhs) != 1 {
-			break
-		}
-		call, ok := unparen(as.Rhs[0]).(*ast.CallExpr)
-		if !ok || c.calleeFull(call) != "strings.Index" || len(call.Args) != 2 || c.obj(call.Args[0]) != s.tf {
-			break
-		}
-		sep, _ := c.constString(call.Args[1])
-		switch sep {
-		case ".":
-			s.dot = c.obj(as.Lhs[0])
-		case "#":
-			s.hash = c.obj(as.Lhs[0])
-		default:
-			s.why = "strings.Index with an unexpected separator"
-			return s
-		}
-	}
-	if s.dot == nil || s.hash == nil {
-		s.why = "positions of the next '.' and '#' are not both computed with strings.Index(tf, …)"
-		return s
-	}
-	if counts[s.dot] != 1 || counts[s.hash] != 1 || counts[s.tf] != 1 {
-		s.why = "path or sigil positions are reassigned"
-		return s
-	}
-	for ; i < len(body); i++ {
-		is, ok := body[i].(*ast.IfStmt)
-		if !ok || is.Else != nil || is.Init != nil {
-			break
-		}
-		d, ok1 := s.evalBranch(is.Cond, 1, -1)
-		h, ok2 := s.evalBranch(is.Cond, -1, 1)
-		if !ok1 || !ok2 {
-			break
-		}
-		switch {
-		case d && !h && s.dotBr == nil:
-			s.dotBr = is
-		case h && !d && s.hashBr == nil:
-			s.hashBr = is
-		default:
-			s.why = "a branch condition is neither the '.'-descent nor the '#'-descent test"
-			return s
-		}
-		s.order = append(s.order, is)
-		if !blockTerminates(c, is.Body) {
-			s.why = "a descent branch can fall through into the next branch"
-			return s
-		}
-	}
-	if s.dotBr == nil || s.hashBr == nil {
-		s.why = "the two descent branches were not found"
-		return s
-	}
-	s.leaf = body[i:]
-	if len(s.leaf) == 0 {
-		s.why = "no leaf statements"
-	}
-	return s
-}
-
-func blockTerminates(c *Ctx, b *ast.BlockStmt) bool {
-	if len(b.List) == 0 {
-		return false
-	}
-	switch x := b.List[len(b.List)-1].(type) {
-	case *ast.ReturnStmt:
-		return true
-	case *ast.ExprStmt:
-		if call, ok := x.X.(*ast.CallExpr); ok && c.isBuiltin(call, "panic") {
-			return true
-		}
-	}
-	return false
-}
-
-func (s *tfSkel) evalBranch(cond ast.Expr, dot, hash int64) (bool, bool) {
-	ev := &evalEnv{c: s.c, vars: map[types.Object]int64{s.dot: dot, s.hash: hash}}
-	return ev.bool(cond)
-}
-
-// evalReject folds the reject condition for a concrete (len, c0, c1). oob reports an unguarded tf[k].
-func (s *tfSkel) evalReject(L int64, c0, c1 rune) (val, ok, oob bool) {
-	ev := &evalEnv{c: s.c}
-	ev.hook = func(e ast.Expr) (int64, bool) {
-		switch x := e.(type) {
-		case *ast.CallExpr:
-			if s.c.isBuiltin(x, "len") && len(x.Args) == 1 && s.c.obj(x.Args[0]) == s.tf {
-				return L, true
-			}
-		case *ast.IndexExpr:
-			if s.c.obj(x.X) == s.tf {
-				if k, isC := s.c.constInt(x.Index); isC {
-					if k < 0 || k >= L {
-						oob = true
-						return 0, true
-					}
-					if k == 0 {
-						return int64(c0), true
-					}
-					if k == 1 {
-						return int64(c1), true
-					}
-				}
-			}
-		}
-		return 0, false
-	}
-	val, ok = ev.bool(s.reject.Cond)
-	return
-}
-
-// resolve follows single-assignment aliases.
-func (s *tfSkel) resolve(e ast.Expr) ast.Expr {
-	for k := 0; k < 8; k++ {
-		e = unparen(e)
-		id, ok := e.(*ast.Ident)
-		if !ok {
-			return e
-		}
-		d, ok := s.alias[s.c.obj(id)]
-		if !ok {
-			return e
-		}
-		e = d
-	}
-	return e
-}
-
-// isSeg: e is tf[:p] (through aliases).
-func (s *tfSkel) isSeg(e ast.Expr, p types.Object) bool {
-	se, ok := s.resolve(e).(*ast.SliceExpr)
-	return ok && s.c.obj(se.X) == s.tf && se.Low == nil && se.High != nil && s.c.obj(se.High) == p && se.Max == nil
-}
-
-// isRest: e is tf[p:].
-func (s *tfSkel) isRest(e ast.Expr, p types.Object) bool {
-	se, ok := s.resolve(e).(*ast.SliceExpr)
-	return ok && s.c.obj(se.X) == s.tf && se.High == nil && se.Low != nil && s.c.obj(se.Low) == p
-}
-
-// parseIntOf: e (through aliases and an int(...) conversion) is the value result of strconv.ParseInt/Atoi(arg, …); returns arg and the error variable.
-func (s *tfSkel) parseIntOf(e ast.Expr) (arg ast.Expr, errVar types.Object, ok bool) {
-	e = s.resolve(e)
-	if call, isCall := e.(*ast.CallExpr); isCall && len(call.Args) == 1 {
-		if tv, isT := s.c.Info.Types[call.Fun]; isT && tv.IsType() {
-			if b, isB := tv.Type.Underlying().(*types.Basic); isB && b.Kind() == types.Int {
-				e = unparen(call.Args[0])
-			}
-		}
-	}
-	id, isId := e.(*ast.Ident)
-	if !isId {
-		return nil, nil, false
-	}
-	o := s.c.obj(id)
-	// find the defining statement `o, err := strconv.ParseInt(arg, …)`
-	var res ast.Expr
-	var ev types.Object
-	n := 0
-	ast.Inspect(s.fd.Body, func(m ast.Node) bool {
-		as, isAs := m.(*ast.AssignStmt)
-		if !isAs || len(as.Lhs) != 2 || len(as.Rhs) != 1 || s.c.obj(as.Lhs[0]) != o {
-			return true
-		}
-		n++
-		call, isCall := unparen(as.Rhs[0]).(*ast.CallExpr)
-		if !isCall {
-			return true
-		}
-		switch s.c.calleeFull(call) {
-		case "strconv.ParseInt", "strconv.Atoi", "strconv.ParseUint":
-			res = call.Args[0]
-			ev = s.c.obj(as.Lhs[1])
-		}
-		return true
-	})
-	if n != 1 || res == nil {
-		return nil, nil, false
-	}
-	return res, ev, true
-}
-
-// selfCall: call is self.<name>(args…) on the logical receiver.
-func (s *tfSkel) selfCall(e ast.Expr) (name string, call *ast.CallExpr) {
-	call, ok := unparen(e).(*ast.CallExpr)
-	if !ok {
-		return "", nil
-	}
-	sel, ok := unparen(call.Fun).(*ast.SelectorExpr)
-	if !ok || !s.c.isSelf(s.fd, sel.X) {
-		return "", nil
-	}
-	f := s.c.callee(call)
-	if f == nil {
-		return "", nil
-	}
-	return f.Name(), call
-}
-
-// segArgOK: argument x of a getter/mutator denotes the branch's segment: object: tf[:p]; list: int(ParseInt(tf[:p])).
-func (s *tfSkel) segArgOK(x ast.Expr, p types.Object) bool {
-	if !s.ct.IsList {
-		return s.isSeg(x, p)
-	}
-	arg, _, ok := s.parseIntOf(x)
-	return ok && s.isSeg(arg, p)
-}
-
-// leafArgOK: argument denotes the whole remaining path.
-func (s *tfSkel) leafArgOK(x ast.Expr) bool {
-	if !s.ct.IsList {
-		return s.c.obj(s.resolve(x)) == s.tf
-	}
-	arg, _, ok := s.parseIntOf(x)
-	return ok && s.c.obj(s.resolve(arg)) == s.tf
-}
 
 func kindConstName(list bool) string {
 	if list {
@@ -356,155 +36,6 @@ func ctorName(list bool) string {
 	return "NewObject"
 }
 
-// ---------------------------------------------------------------- common skeleton obligations
-
-func tfSkeletonRule(c *Ctx, rule string, s *tfSkel, read bool) bool {
-	ob := c.Ob(rule, s.name+"/skeleton", posOf(s.fd))
-	if s.why != "" {
-		ob.Undecided("tree-form skeleton not recognised: %s", s.why)
-		return false
-	}
-	ob.Ok("reject test, strip of the own sigil, positions of next '.' and '#', '.'-branch, '#'-branch, leaf")
-	own := s.ownSigil()
-	// reject predicate over the finite domain len in {0..3} x c0 x c1
-	rob := c.Ob(rule, s.name+"/reject", s.reject.Pos())
-	good, why := true, ""
-	chars := []rune{'.', '#', 'a'}
-	notRejectedSigil := map[rune]bool{}
-	for L := int64(0); L <= 3 && good; L++ {
-		for _, c0 := range chars {
-			for _, c1 := range chars {
-				v, ok, oob := s.evalReject(L, c0, c1)
-				if !ok {
-					good, why = false, "reject condition outside the vocabulary"
-					break
-				}
-				if oob {
-					good, why = false, "tf[k] is evaluated although len(tf) <= k (index out of range for a short path)"
-					break
-				}
-				must := L < 2 || c0 != own
-				if must && !v {
-					good, why = false, "a path with len="+itoa(int(L))+" starting with '"+string(c0)+"' is not rejected"
-				}
-				if !must && c1 == 'a' && v {
-					good, why = false, "a well-formed path (own sigil, non-empty first segment) is rejected"
-				}
-				if !must && c1 != 'a' && !v {
-					notRejectedSigil[c1] = true
-				}
-			}
-		}
-	}
-	if good {
-		rob.Ok("rejects exactly: len < 2, wrong leading sigil%s (folded over len 0..3 x first two bytes in {'.','#',other})", map[bool]string{true: "", false: ", and an empty first segment"}[len(notRejectedSigil) > 0])
-	} else {
-		rob.Fail("%s", why)
-	}
-	// branch predicates over the order types of (dot, hash), first matching branch in source order
-	bob := c.Ob(rule, s.name+"/branch-predicates", s.dotBr.Pos())
-	vals := []int64{-1, 0, 1, 2, 3}
-	good, why = true, ""
-	hygiene := true
-	hyWhy := ""
-	for _, d := range vals {
-		for _, h := range vals {
-			if d == h && d >= 0 {
-				continue
-			}
-			choice := "leaf"
-			for _, br := range s.order {
-				v, ok := s.evalBranch(br.Cond, d, h)
-				if !ok {
-					good, why = false, "branch condition outside the vocabulary"
-					break
-				}
-				if v {
-					if br == s.dotBr {
-						choice = "dot"
-					} else {
-						choice = "hash"
-					}
-					break
-				}
-			}
-			emptyFirst := d == 0 || h == 0
-			if !emptyFirst {
-				want := "leaf"
-				if d > 0 && (h < 0 || d < h) {
-					want = "dot"
-				} else if h > 0 && (d < 0 || h < d) {
-					want = "hash"
-				}
-				if choice != want {
-					good, why = false, "for dot="+itoa(int(d))+" hash="+itoa(int(h))+" the "+choice+" branch is taken, the next sigil demands "+want
-				}
-				continue
-			}
-			// empty first segment: only reachable when the reject test lets the sigil through
-			sig := '.'
-			if h == 0 {
-				sig = '#'
-			}
-			if !notRejectedSigil[sig] {
-				continue
-			}
-			if read {
-				if choice != "leaf" {
-					hygiene, hyWhy = false, "with an empty first segment (dot="+itoa(int(d))+" hash="+itoa(int(h))+") the "+choice+" branch descends through the empty key/index"
-				} else if !s.ct.IsList {
-					hygiene, hyWhy = false, "with an empty first segment the leaf looks up a key that still contains the sigil (dot="+itoa(int(d))+" hash="+itoa(int(h))+"): the path resolves although a segment is empty"
-				}
-			}
-		}
-	}
-	if good {
-		bob.Ok("first matching branch equals `next sigil is '.'` / `next sigil is '#'` on all order types of (dot, hash) with a non-empty first segment")
-	} else {
-		bob.Fail("%s", why)
-	}
-	if read {
-		hob := c.Ob(strings.Split(rule, ".")[0]+".R4", s.name+"/leaf-hygiene", s.reject.Pos())
-		if hygiene {
-			hob.Ok("the leaf is reached only with a sigil-free segment, or (list) through an integer parser that rejects sigils; an empty first segment is rejected")
-		} else {
-			hob.Fail("%s", hyWhy)
-		}
-	}
-	// every slice of tf inside a branch uses that branch's own position
-	for _, br := range []struct {
-		is *ast.IfStmt
-		p  types.Object
-		nm string
-	}{{s.dotBr, s.dot, "dot"}, {s.hashBr, s.hash, "hash"}} {
-		sob := c.Ob(rule, s.name+"/"+br.nm+"-slices", br.is.Pos())
-		bad := ""
-		nSeg, nRest := 0, 0
-		ast.Inspect(br.is.Body, func(n ast.Node) bool {
-			se, ok := n.(*ast.SliceExpr)
-			if !ok || c.obj(se.X) != s.tf {
-				return true
-			}
-			switch {
-			case se.Low == nil && se.High != nil && c.obj(se.High) == br.p:
-				nSeg++
-			case se.High == nil && se.Low != nil && c.obj(se.Low) == br.p:
-				nRest++
-			default:
-				bad = "slice " + exprStr(se) + " does not cut at this branch's own sigil position"
-			}
-			return true
-		})
-		// aliases defined outside the branch are resolved by isSeg/isRest where used; count only direct uses here
-		if bad != "" {
-			sob.Fail("%s", bad)
-		} else {
-			sob.Ok("segment = tf[:%s], rest = tf[%s:] (%d/%d uses)", br.nm, br.nm, nSeg, nRest)
-		}
-	}
-	return true
-}
-
 func posOf(fd *ast.FuncDecl) token.Pos {
 	if fd == nil {
 		return token.NoPos
@@ -512,18 +43,445 @@ func posOf(fd *ast.FuncDecl) token.Pos {
 	return fd.Pos()
 }
 
+func blockTerminates(c *Ctx, b *ast.BlockStmt) bool {
+	if len(b.List) == 0 {
+		return false
+	}
+	switch x := b.List[len(b.List)-1].(type) {
+	case *ast.ReturnStmt:
+		return true
+	case *ast.ExprStmt:
+		if call, ok := x.X.(*ast.CallExpr); ok && c.isBuiltin(call, "panic") {
+			return true
+		}
+	}
+	return false
+}
+
+type tfM struct {
+	c      *Ctx
+	ct     *Cont
+	method string
+	name   string
+	fd     *ast.FuncDecl
+	v      *sxView
+	paths  []*Path
+	tf     types.Object
+	value  types.Object
+	consts map[string]string // Type constant value -> name
+	why    string
+}
+
+func newTFM(c *Ctx, ct *Cont, method string) *tfM {
+	m := &tfM{c: c, ct: ct, method: method, name: "(*" + ct.Named.Obj().Name() + ")." + method}
+	m.fd = c.Decl(m.name)
+	if m.fd == nil {
+		m.why = "no implementation"
+		return m
+	}
+	m.v = c.view(m.fd)
+	k := 0
+	for _, f := range m.fd.Type.Params.List {
+		for _, nm := range f.Names {
+			if k == 0 {
+				m.tf = c.Info.Defs[nm]
+			} else if k == 1 {
+				m.value = c.Info.Defs[nm]
+			}
+			k++
+		}
+	}
+	m.paths, m.why = c.runPaths(m.fd)
+	m.consts = map[string]string{}
+	sc := c.Types.Scope()
+	for _, n := range sc.Names() {
+		if kc, ok := sc.Lookup(n).(*types.Const); ok && kc.Exported() && typeConstKind(n) != "" {
+			m.consts[kc.Val().ExactString()] = n
+		}
+	}
+	return m
+}
+
+func (m *tfM) own() byte {
+	if m.ct.IsList {
+		return '#'
+	}
+	return '.'
+}
+
+// env builds the folding hook for path string s and list length n.
+func (m *tfM) env(s string, n int64) *strEnv {
+	e := &strEnv{}
+	e.hook = func(t Term) (sval, bool) {
+		if isParamTerm(t, m.tf) {
+			return sval{K: 's', S: s}, true
+		}
+		if m.v.isCountOfRecv(t) {
+			return sval{K: 'i', I: n}, true
+		}
+		return sval{}, false
+	}
+	return e
+}
+
+// render prints a term with every string / integer subterm folded to its concrete value.
+func (m *tfM) render(t Term, e *strEnv) string {
+	sub := &strEnv{hook: e.hook}
+	if v, ok := sub.val(t); ok && sub.panic == "" {
+		switch v.K {
+		case 's':
+			return strconv.Quote(v.S)
+		case 'i':
+			if k, isC := t.(TConst); isC {
+				if n, ok := m.consts[k.Val.ExactString()]; ok && m.isTypeConst(t) {
+					return n
+				}
+			}
+			return strconv.FormatInt(v.I, 10)
+		case 'b':
+			return boolStr(v.B)
+		}
+	}
+	switch x := t.(type) {
+	case TNil:
+		return "nil"
+	case TVar:
+		if m.v.isRecv(t) {
+			return "self"
+		}
+		if x.Obj == m.value {
+			return "value"
+		}
+		return x.Obj.Name()
+	case TConst:
+		if n, ok := m.consts[x.Val.ExactString()]; ok {
+			return n
+		}
+		return x.Val.String()
+	case TCall:
+		if m.v.isSelf(t) {
+			return "self"
+		}
+		name := x.Name
+		if x.Fun == nil {
+			name = "?"
+		}
+		args := unpack(x.Args)
+		var as []string
+		for _, a := range args {
+			as = append(as, m.render(a, e))
+		}
+		recv := ""
+		if x.Recv != nil {
+			recv = m.render(x.Recv, e) + "."
+		}
+		return recv + name + "(" + strings.Join(as, ", ") + ")"
+	case TSel:
+		if m.v.isSelf(t) {
+			return "self"
+		}
+		return m.render(x.X, e) + "." + x.Field.Name()
+	case TAssert:
+		return m.render(x.X, e)
+	case TProj:
+		return m.render(x.X, e) + "#" + itoa(x.K)
+	case TConv:
+		return m.render(x.X, e)
+	case TBin:
+		return "(" + m.render(x.X, e) + " " + x.Op.String() + " " + m.render(x.Y, e) + ")"
+	case TUn:
+		return x.Op.String() + m.render(x.X, e)
+	case TLit:
+		var as []string
+		for _, a := range x.Elts {
+			as = append(as, m.render(a, e))
+		}
+		return "{" + strings.Join(as, ", ") + "}"
+	case TLoop:
+		return x.Obj.Name() + "′"
+	}
+	return m.c.termStr(t)
+}
+
+func (m *tfM) isTypeConst(t Term) bool {
+	k, ok := t.(TConst)
+	if !ok {
+		return false
+	}
+	_, ok = m.consts[k.Val.ExactString()]
+	return ok && k.Val.Kind() == constant.Int
+}
+
+// oracle: a condition that depends on the container's content (not on the path string): rendered atom + polarity.
+type tfOracle struct {
+	Atom  string
+	Truth bool
+}
+
+// observed outcome of one feasible path
+type tfObs struct {
+	Oracles []tfOracle
+	Trace   []string
+	End     string // panic | return <rendered value>
+	Panic   string // run-time panic while folding (index out of range)
+	Path    *Path
+}
+
+func (o tfObs) String() string {
+	var os []string
+	for _, a := range o.Oracles {
+		os = append(os, a.Atom+"="+boolStr(a.Truth))
+	}
+	return "[" + strings.Join(os, ",") + "] " + strings.Join(o.Trace, "; ") + " => " + o.End
+}
+
+// mentionsSelfCall: the term contains a call on the receiver (content-dependent) that is not the count.
+func (m *tfM) contentDependent(t Term) bool {
+	dep := false
+	collectSubterms(t, func(s Term) {
+		if c, ok := s.(TCall); ok && c.Fun != nil && c.Recv != nil && m.v.isSelf(c.Recv) && !m.v.isCountOfRecv(s) && !m.v.isEgo(s) {
+			dep = true
+		}
+		if ix, ok := s.(TIndex); ok && m.v.isRecvSpine(ix.X) {
+			dep = true
+		}
+	})
+	return dep
+}
+
+// observe folds all paths for (s, n) and returns the feasible ones.
+func (m *tfM) observe(s string, n int64) ([]tfObs, string) {
+	var out []tfObs
+	for _, p := range m.paths {
+		e := m.env(s, n)
+		obs := tfObs{Path: p}
+		feasible := true
+		undec := ""
+		added := 0
+		var walk func(steps []Step) bool
+		walk = func(steps []Step) bool {
+			for _, st := range steps {
+				switch st.Kind {
+				case "cond":
+					if m.contentDependent(st.Cond.T) {
+						obs.Oracles = append(obs.Oracles, m.oracleOf(st.Cond, e))
+						continue
+					}
+					sub := &strEnv{hook: e.hook}
+					v, ok := sub.val(st.Cond.T)
+					if sub.panic != "" {
+						obs.Panic = sub.panic
+						return false
+					}
+					if !ok || v.K != 'b' {
+						undec = "condition cannot be folded: " + sub.fail
+						return false
+					}
+					if v.B != st.Cond.Truth {
+						feasible = false
+						return false
+					}
+				case "call":
+					if st.Call != nil {
+						if st.Call.Fun != nil && (st.Call.Fun.Name() == "NewObject" || st.Call.Fun.Name() == "NewList" || st.Call.Fun.Name() == "Init") && st.Call.Fun.Pkg() == m.c.Types {
+							continue // allocation
+						}
+						r := m.render(*st.Call, e)
+						if strings.HasPrefix(r, "self.Add(") {
+							added++
+						}
+						obs.Trace = append(obs.Trace, r)
+					} else if st.Blt != nil {
+						obs.Trace = append(obs.Trace, m.c.termStr(*st.Blt))
+					}
+				case "store":
+					obs.Trace = append(obs.Trace, "store "+m.render(st.LHS, e))
+				case "loop":
+					// counted loops are expanded by simulating their header step by step; a count of the receiver that is (re-)evaluated
+					// inside the loop is LIVE: it grows with every Add the body has performed so far
+					loop := st.Loop
+					live := func(t Term) (int64, bool) {
+						if m.v.isCountOfRecv(t) && termEpoch(t) >= loop.HeadEpoch {
+							return n + int64(added), true
+						}
+						hasLive := false
+						collectSubterms(t, func(s Term) {
+							if m.v.isCountOfRecv(s) && termEpoch(s) >= loop.HeadEpoch {
+								hasLive = true
+							}
+						})
+						if hasLive {
+							return 0, false // let the integer folder decompose the term down to the live count
+						}
+						sub := &strEnv{hook: e.hook}
+						v, ok := sub.val(t)
+						if ok && v.K == 'i' && sub.panic == "" {
+							return v.I, true
+						}
+						return 0, false
+					}
+					sim := m.c.newLoopSim(loop, live)
+					if sim.why != "" {
+						undec = "loop cannot be folded: " + sim.why
+						return false
+					}
+					for it := 0; ; it++ {
+						if it > 1300 {
+							undec = "loop does not terminate within the folding limit"
+							return false
+						}
+						cond, ok := sim.cond(live)
+						if !ok {
+							undec = "loop cannot be folded: " + sim.why
+							return false
+						}
+						if !cond {
+							break
+						}
+						if len(loop.Iter) != 1 {
+							undec = "loop body with several paths"
+							return false
+						}
+						if !walk(loop.Iter[0].Steps) {
+							return false
+						}
+						if !sim.post() {
+							undec = "loop cannot be folded: " + sim.why
+							return false
+						}
+					}
+				case "go", "defer":
+					undec = "go/defer in a tree-form method"
+					return false
+				}
+			}
+			return true
+		}
+		ok := walk(p.Steps)
+		if undec != "" {
+			return nil, undec
+		}
+		if !feasible {
+			continue
+		}
+		if !ok && obs.Panic == "" {
+			continue
+		}
+		if obs.Panic != "" {
+			obs.End = "runtime-panic " + obs.Panic
+			out = append(out, obs)
+			continue
+		}
+		switch p.End {
+		case "panic":
+			obs.End = "panic"
+		case "return":
+			if len(p.Vals) == 1 {
+				sub := &strEnv{hook: e.hook}
+				obs.End = "return " + m.render(p.Vals[0], sub)
+			} else {
+				obs.End = "return"
+			}
+		default:
+			obs.End = p.End
+		}
+		out = append(out, obs)
+	}
+	return out, ""
+}
+
+// ---- specification
+
+type tfSpec struct {
+	valid   bool   // own sigil, len >= 2, non-empty first segment
+	wrongHd bool   // len < 2 or wrong leading sigil
+	seg     string // first segment text
+	rest    string // remainder starting at the next sigil ("" for a leaf)
+	nextIsL bool   // next sigil is '#'
+	idx     int64
+	idxOK   bool
+}
+
+func (m *tfM) spec(s string) tfSpec {
+	var sp tfSpec
+	if len(s) < 2 || s[0] != m.own() {
+		sp.wrongHd = true
+		return sp
+	}
+	t := s[1:]
+	if t[0] == '.' || t[0] == '#' {
+		return sp // empty first segment
+	}
+	sp.valid = true
+	p := strings.IndexAny(t, ".#")
+	if p < 0 {
+		sp.seg = t
+	} else {
+		sp.seg, sp.rest, sp.nextIsL = t[:p], t[p:], t[p] == '#'
+	}
+	if m.ct.IsList {
+		v, err := strconv.ParseInt(sp.seg, 0, strconv.IntSize)
+		sp.idx, sp.idxOK = v, err == nil
+	}
+	return sp
+}
+
+func (m *tfM) segArg(sp tfSpec) string {
+	if m.ct.IsList {
+		return strconv.FormatInt(sp.idx, 10)
+	}
+	return strconv.Quote(sp.seg)
+}
+
+// oracleOf canonicalises a content-dependent condition: `self.TypeOf(x) == K` (either operand order, == or !=) becomes the atom
+// "TypeOf(x)==K" with normalised polarity; `self.KeyExists(x)` becomes "KeyExists(x)"; anything else is kept as rendered.
+func (m *tfM) oracleOf(cd Cond, e *strEnv) tfOracle {
+	t, truth := cd.T, cd.Truth
+	if u, ok := t.(TUn); ok && u.Op == token.NOT {
+		t, truth = u.X, !truth
+	}
+	if b, ok := t.(TBin); ok && (b.Op == token.EQL || b.Op == token.NEQ) {
+		call, k := b.X, b.Y
+		if m.isTypeConst(call) {
+			call, k = k, call
+		}
+		if nm, args, ok := m.v.selfCall(call); ok && nm == "TypeOf" && len(args) == 1 && m.isTypeConst(k) {
+			if b.Op == token.NEQ {
+				truth = !truth
+			}
+			return tfOracle{"TypeOf(" + m.render(args[0], e) + ")==" + m.render(k, e), truth}
+		}
+	}
+	if nm, args, ok := m.v.selfCall(t); ok && nm == "KeyExists" && len(args) == 1 {
+		return tfOracle{"KeyExists(" + m.render(args[0], e) + ")", truth}
+	}
+	return tfOracle{m.render(t, e), truth}
+}
+
+// hasOracle: the observation decided the canonical atom with the given outcome.
+func hasOracle(o tfObs, atom string, truth bool) bool {
+	for _, a := range o.Oracles {
+		if a.Atom == atom && a.Truth == truth {
+			return true
+		}
+	}
+	return false
+}
+
+func tfStrings() []string { return shortStrings(".#a1", 5) }
+
 // ---------------------------------------------------------------- C10
 
 func init() {
 	register(&Property{
 		ID: "C10",
-		Explanation: "The four read methods (GetTF, TypeOfTF of both containers) are matched against a semantic skeleton: the reject predicate is folded over the finite domain len x first two bytes; the branch predicates are decided over all order types of (dot, hash) " +
-			"(they are touched only through comparisons with each other and 0); segment and rest must be tf[:p] / tf[p:] of the branch's own p; descents must go through the getter of the kind the next sigil demands and continue with the same read method on the rest; " +
-			"the leaf is Get/TypeOf of the whole remaining segment; list segments go through an integer parser whose failure leads to the reject action. TypeOfTF: every panicking getter is dominated by the matching TypeOf guard on the same receiver and argument. " +
-			"Equality of the returned value follows by induction over segments (on paper). Hexadecimal/signed index spellings are outside the property's path grammar.",
+		Explanation: "The four read methods (GetTF, TypeOfTF of both containers) are executed symbolically (SX) and their paths are folded over ALL path strings of length <= 5 over the alphabet {'.', '#', letter, digit} (1365 strings; the code inspects only the length, the first two bytes and the first occurrences of the sigils): " +
+			"for every string the feasible path must do exactly what step-by-step navigation prescribes — reject (panic / TypeUndefined) on a short path, a wrong leading sigil, an empty or (list) non-numeric first segment; otherwise return self.Get/TypeOf(segment) for a leaf, " +
+			"or self.GetObject/GetList(segment) — the getter of the kind the NEXT sigil demands — continued with the same read method on exactly the rest; arguments are compared as concrete values. TypeOfTF additionally never panics: a descent through a panicking getter is only allowed on a path that established TypeOf(segment) == the needed kind, " +
+			"every other feasible path returns TypeUndefined, and no string makes a byte index go out of range. Equality of the returned value follows by induction over segments (on paper). Hexadecimal/signed index spellings are outside the property's path grammar.",
 		Rules: []Rule{
-			{ID: "C10.R1", Doc: "GetTF/TypeOfTF follow the semantic skeleton (reject predicate, branch predicates over order types, tf[:p]/tf[p:], kind-correct descent, leaf)", Run: c10Run},
-			{ID: "C10.R2", Doc: "TypeOfTF never panics: every may-panic getter is dominated by the matching kind guard; reject and parse failure return TypeUndefined", Run: func(c *Ctx) {}},
+			{ID: "C10.R1", Doc: "GetTF/TypeOfTF equal step-by-step navigation on all short path strings (reject cases, kind-correct descent, exact segment/rest, leaf)", Run: c10Run},
+			{ID: "C10.R2", Doc: "TypeOfTF never panics: panicking getters only behind the matching TypeOf guard; reject and parse failure return TypeUndefined; no byte index out of range", Run: func(c *Ctx) {}},
 			{ID: "C10.R3", Doc: "GetTF rejects by panicking and descends through the panicking getters", Run: func(c *Ctx) {}},
 			{ID: "C10.R4", Doc: "leaf hygiene: an empty first segment never resolves", Run: func(c *Ctx) {}},
 			{ID: "C10.R5", Doc: "PURE: tree-form reads write nothing", Run: func(c *Ctx) {
@@ -536,184 +494,149 @@ func init() {
 func c10Run(c *Ctx) {
 	n := 0
 	for _, ct := range c.Inv().Conts {
-		for _, m := range []string{"GetTF", "TypeOfTF"} {
-			s := extractTF(c, ct, m)
-			if s.fd == nil {
-				c.Ob("C10.R1", s.name, token.NoPos).Missing("read method not found")
+		for _, meth := range []string{"GetTF", "TypeOfTF"} {
+			m := newTFM(c, ct, meth)
+			if m.fd == nil {
+				c.Ob("C10.R1", m.name, token.NoPos).Missing("read method not found")
 				continue
 			}
 			n++
-			if !tfSkeletonRule(c, "C10.R1", s, true) {
+			if m.why != "" {
+				c.Ob("C10.R1", m.name, m.fd.Pos()).Undecided("body outside the path vocabulary: %s", m.why)
 				continue
 			}
-			isType := m == "TypeOfTF"
-			// reject action
-			if isType {
-				c.Ob("C10.R2", s.name+"/reject-action", s.reject.Pos()).Check(returnsUndefined(c, s.reject.Body), "reject action returns TypeUndefined", "reject action of TypeOfTF is not `return TypeUndefined`")
-			} else {
-				c.Ob("C10.R3", s.name+"/reject-action", s.reject.Pos()).Check(blockPanicsOnly(c, s.reject.Body.List), "reject action panics", "reject action of GetTF is not a panic")
-			}
-			// descents
-			for _, br := range []struct {
-				is   *ast.IfStmt
-				p    types.Object
-				list bool
-				nm   string
-			}{{s.dotBr, s.dot, false, "dot"}, {s.hashBr, s.hash, true, "hash"}} {
-				c10Descent(c, s, br.is, br.p, br.list, br.nm, isType)
-			}
-			c10Leaf(c, s, isType)
+			c10Method(c, m, meth == "TypeOfTF")
 		}
 	}
 	c.R.Floor("C10.R1", n, 4)
 }
 
-func returnsUndefined(c *Ctx, b *ast.BlockStmt) bool {
-	r := singleReturn(b)
-	if r == nil || len(r.Results) != 1 {
-		return false
+func c10Method(c *Ctx, m *tfM, isType bool) {
+	type verdict struct {
+		bad   string
+		count int
 	}
-	k, ok := c.obj(r.Results[0]).(*types.Const)
-	return ok && k.Name() == "TypeUndefined"
-}
-
-// parseFailureOK: for list methods, every `if err != nil` on the parse error inside stmts performs the reject action.
-func c10ParseFailure(c *Ctx, s *tfSkel, stmts []ast.Stmt, where string, isType bool, rule string) {
-	if !s.ct.IsList {
-		return
+	res := map[string]*verdict{"reject": {}, "hygiene": {}, "descent": {}, "leaf": {}, "nopanic": {}, "parse": {}}
+	fail := func(k, s, w string) {
+		if res[k].bad == "" {
+			res[k].bad = "path " + strconv.Quote(s) + ": " + w
+		}
 	}
-	found := 0
-	for _, st := range stmts {
-		is, ok := st.(*ast.IfStmt)
-		if !ok {
-			continue
+	undec := ""
+	for _, s := range tfStrings() {
+		obs, why := m.observe(s, 2)
+		if why != "" {
+			undec = "path " + strconv.Quote(s) + ": " + why
+			break
 		}
-		be, ok := unparen(is.Cond).(*ast.BinaryExpr)
-		if !ok || be.Op != token.NEQ || !c.isNil(be.Y) {
-			continue
+		if len(obs) == 0 {
+			undec = "no feasible path for " + strconv.Quote(s)
+			break
 		}
-		if t := c.typeOf(be.X); t == nil || !types.Identical(t, types.Universe.Lookup("error").Type()) {
-			continue
-		}
-		found++
-		ob := c.Ob(rule, s.name+"/"+where+"-parse-failure", is.Pos())
+		sp := m.spec(s)
+		rejectEnd := "panic"
 		if isType {
-			ob.Check(returnsUndefined(c, is.Body), "non-numeric segment => TypeUndefined", "a non-numeric segment does not lead to `return TypeUndefined`")
+			rejectEnd = "return TypeUndefined"
+		}
+		for _, o := range obs {
+			if strings.HasPrefix(o.End, "runtime-panic") {
+				fail("nopanic", s, "a byte of the path is indexed beyond its length ("+o.End+")")
+				continue
+			}
+			if len(o.Trace) != 0 {
+				fail("leaf", s, "a read method performs an effect: "+strings.Join(o.Trace, "; "))
+				continue
+			}
+			if isType && o.End == "panic" {
+				fail("nopanic", s, "TypeOfTF panics")
+				continue
+			}
+			switch {
+			case sp.wrongHd:
+				res["reject"].count++
+				if o.End != rejectEnd || len(o.Oracles) != 0 {
+					fail("reject", s, "a short path / wrong leading sigil is not rejected: "+o.String())
+				}
+			case !sp.valid:
+				res["hygiene"].count++
+				if o.End != rejectEnd {
+					fail("hygiene", s, "an empty first segment resolves: "+o.String())
+				}
+			case m.ct.IsList && !sp.idxOK:
+				res["parse"].count++
+				if o.End != rejectEnd {
+					fail("parse", s, "a non-numeric list segment is not rejected: "+o.String())
+				}
+			case sp.rest == "":
+				res["leaf"].count++
+				want := "return self.Get(" + m.segArg(sp) + ")"
+				if isType {
+					want = "return self.TypeOf(" + m.segArg(sp) + ")"
+				}
+				if o.End == want {
+					continue
+				}
+				if isType && o.End == "return TypeUndefined" && hasOracle(o, "KeyExists("+m.segArg(sp)+")", false) {
+					continue // absent key short-cut
+				}
+				fail("leaf", s, "expected "+want+", found "+o.String())
+			default:
+				res["descent"].count++
+				getter := getterName(sp.nextIsL)
+				want := "return self." + getter + "(" + m.segArg(sp) + ")." + m.method + "(" + strconv.Quote(sp.rest) + ")"
+				if o.End == want {
+					if isType && !hasOracle(o, "TypeOf("+m.segArg(sp)+")=="+kindConstName(sp.nextIsL), true) {
+						fail("nopanic", s, getter+"("+m.segArg(sp)+") is reached without the guard TypeOf(segment) == "+kindConstName(sp.nextIsL)+": a missing / wrong-kind step panics instead of yielding TypeUndefined ("+o.String()+")")
+					}
+					continue
+				}
+				if isType && o.End == "return TypeUndefined" && len(o.Oracles) > 0 {
+					continue // guard failed
+				}
+				fail("descent", s, "expected "+want+", found "+o.String())
+			}
+		}
+		// a descent / leaf string must have at least one path that actually resolves
+		if sp.valid && (!m.ct.IsList || sp.idxOK) {
+			resolves := false
+			for _, o := range obs {
+				if o.End != rejectEnd {
+					resolves = true
+				}
+			}
+			if !resolves {
+				fail("descent", s, "a well-formed path is always rejected")
+			}
+		}
+	}
+	if undec != "" {
+		c.Ob("C10.R1", m.name+"/fold", m.fd.Pos()).Undecided("%s", undec)
+		return
+	}
+	rule2 := "C10.R3"
+	if isType {
+		rule2 = "C10.R2"
+	}
+	report := func(rule, key, k, okMsg string) {
+		ob := c.Ob(rule, m.name+"/"+key, m.fd.Pos())
+		if res[k].bad != "" {
+			ob.Fail("%s", res[k].bad)
 		} else {
-			ob.Check(blockPanicsOnly(c, is.Body.List), "non-numeric segment => panic", "a non-numeric segment does not lead to a panic")
+			ob.Ok("%s (%d folded cases)", okMsg, res[k].count)
 		}
 	}
-	if found == 0 {
-		c.Ob(rule, s.name+"/"+where+"-parse-failure", token.NoPos).Fail("the integer parser's error is not tested in the %s part", where)
+	report(rule2, "reject", "reject", "len < 2 or a wrong leading sigil is rejected by "+map[bool]string{true: "TypeUndefined", false: "a panic"}[isType])
+	report("C10.R4", "leaf-hygiene", "hygiene", "an empty first segment never resolves")
+	if m.ct.IsList {
+		report(rule2, "parse-failure", "parse", "a non-numeric segment is rejected")
 	}
-}
-
-func c10Descent(c *Ctx, s *tfSkel, is *ast.IfStmt, p types.Object, list bool, nm string, isType bool) {
-	ob := c.Ob("C10.R1", s.name+"/"+nm+"-descent", is.Pos())
-	rule2 := "C10.R3"
+	report("C10.R1", "descent", "descent", "child = self.GetObject/GetList(segment) by the NEXT sigil; continues with "+m.method+" on exactly the rest")
+	report("C10.R1", "leaf", "leaf", "leaf = self."+map[bool]string{true: "TypeOf", false: "Get"}[isType]+"(remaining segment)")
 	if isType {
-		rule2 = "C10.R2"
+		report("C10.R2", "no-panic", "nopanic", "no feasible path panics; every getter is guarded by TypeOf(segment) == needed kind")
+	} else {
+		report("C10.R3", "no-runtime-panic", "nopanic", "no byte index goes out of range")
 	}
-	c10ParseFailure(c, s, is.Body.List, nm, isType, rule2)
-	last, ok := is.Body.List[len(is.Body.List)-1].(*ast.ReturnStmt)
-	if !ok || len(last.Results) != 1 {
-		ob.Fail("branch does not end in `return child.%s(rest)`", s.method)
-		return
-	}
-	outer, ok := unparen(last.Results[0]).(*ast.CallExpr)
-	if !ok || len(outer.Args) != 1 {
-		ob.Fail("branch does not return a call of %s on the child", s.method)
-		return
-	}
-	osel, ok := unparen(outer.Fun).(*ast.SelectorExpr)
-	ocal := c.callee(outer)
-	if !ok || ocal == nil || ocal.Name() != s.method {
-		ob.Fail("the descent continues with %s, not with %s", exprStr(outer.Fun), s.method)
-		return
-	}
-	if !s.isRest(outer.Args[0], p) {
-		ob.Fail("the child is asked for %s, not for the rest tf[%s:]", exprStr(outer.Args[0]), nm)
-		return
-	}
-	gname, gcall := s.selfCall(s.resolve(osel.X))
-	if gcall == nil || gname != getterName(list) || len(gcall.Args) != 1 {
-		ob.Fail("the child is not obtained through self.%s(segment): the next sigil '%s' demands a %s", getterName(list), map[bool]string{true: "#", false: "."}[list], map[bool]string{true: "List", false: "Object"}[list])
-		return
-	}
-	if !s.segArgOK(gcall.Args[0], p) {
-		ob.Fail("the getter's argument %s is not the segment tf[:%s]%s", exprStr(gcall.Args[0]), nm, map[bool]string{true: " parsed as an integer", false: ""}[s.ct.IsList])
-		return
-	}
-	ob.Ok("child = self.%s(tf[:%s]); return child.%s(tf[%s:])", getterName(list), nm, s.method, nm)
-	if !isType {
-		return
-	}
-	// TypeOfTF: the getter must be dominated by `if … self.TypeOf(seg) != TypeK … { return TypeUndefined }` in the same block
-	gob := c.Ob("C10.R2", s.name+"/"+nm+"-guard", gcall.Pos())
-	guarded := false
-	for _, st := range is.Body.List[:len(is.Body.List)-1] {
-		gi, ok := st.(*ast.IfStmt)
-		if !ok || gi.Else != nil || !returnsUndefined(c, gi.Body) {
-			continue
-		}
-		for _, d := range splitOr(gi.Cond) {
-			be, ok := unparen(d).(*ast.BinaryExpr)
-			if !ok || be.Op != token.NEQ {
-				continue
-			}
-			tn, tcall := s.selfCall(be.X)
-			k, isK := c.obj(be.Y).(*types.Const)
-			if tcall == nil {
-				tn, tcall = s.selfCall(be.Y)
-				k, isK = c.obj(be.X).(*types.Const)
-			}
-			if tcall != nil && tn == "TypeOf" && isK && k.Name() == kindConstName(list) && len(tcall.Args) == 1 && s.segArgOK(tcall.Args[0], p) {
-				guarded = true
-			}
-		}
-	}
-	gob.Check(guarded, "dominated by `self.TypeOf(segment) != "+kindConstName(list)+" => return TypeUndefined` (TypeOf itself never panics), so "+getterName(list)+" cannot panic here",
-		getterName(list)+"(segment) is not preceded by the guard `self.TypeOf(segment) != "+kindConstName(list)+" => return TypeUndefined`: a missing / wrong-kind step panics instead of yielding TypeUndefined")
-}
-
-func c10Leaf(c *Ctx, s *tfSkel, isType bool) {
-	ob := c.Ob("C10.R1", s.name+"/leaf", s.leaf[0].Pos())
-	rule2 := "C10.R3"
-	if isType {
-		rule2 = "C10.R2"
-	}
-	c10ParseFailure(c, s, s.leaf, "leaf", isType, rule2)
-	last, ok := s.leaf[len(s.leaf)-1].(*ast.ReturnStmt)
-	if !ok || len(last.Results) != 1 {
-		ob.Fail("leaf does not end in a return")
-		return
-	}
-	want := "Get"
-	if isType {
-		want = "TypeOf"
-	}
-	nm, call := s.selfCall(last.Results[0])
-	if call == nil || nm != want || len(call.Args) != 1 || !s.leafArgOK(call.Args[0]) {
-		ob.Fail("leaf is not `return self.%s(<whole remaining segment>)`", want)
-		return
-	}
-	// other statements of the leaf may only be the parse and its failure test, and (TypeOfTF) guards returning TypeUndefined
-	for _, st := range s.leaf[:len(s.leaf)-1] {
-		switch x := st.(type) {
-		case *ast.AssignStmt:
-			continue
-		case *ast.IfStmt:
-			if isType && x.Else == nil && returnsUndefined(c, x.Body) {
-				continue
-			}
-			if !isType && x.Else == nil && blockPanicsOnly(c, x.Body.List) {
-				continue
-			}
-		}
-		ob.Fail("unexpected statement in the leaf")
-		return
-	}
-	ob.Ok("leaf = self.%s(remaining segment)", want)
 }
 
 // ---------------------------------------------------------------- C11
@@ -721,15 +644,15 @@ func c10Leaf(c *Ctx, s *tfSkel, isType bool) {
 func init() {
 	register(&Property{
 		ID: "C11",
-		Explanation: "SetTF/UnsetTF of both containers share the tree-form skeleton of C10 (same finite decisions for reject and branch predicates; a well-formed path is never rejected). Decided on top: the reuse-or-replace triple of every SetTF descent " +
-			"(guard TypeOf(seg) == TypeK, reuse GetK(seg), else NewK() stored at seg, one kind K = the kind the next sigil needs), list padding (Add(nil) exactly index-count times with the count captured before the loop, then one Add; otherwise Replace(index)), " +
-			"the mutation frame (no other mutator calls on the receiver; UnsetTF descents perform no mutation; leaves are Set/Replace/Add resp. Unset/Delete of the addressed slot), recursion on the reused child itself, and the fluent return. " +
+		Explanation: "SetTF/UnsetTF of both containers are executed symbolically (SX) and folded over all path strings of length <= 5 over {'.', '#', letter, digit} and list lengths 0..3: for every well-formed string the sequence of mutating calls on each feasible path must be exactly the prescribed one — " +
+			"object descent: reuse self.GetK(seg) when TypeOf(seg) == TypeK (K = the kind the NEXT sigil needs), otherwise NewK() stored with Set(seg, child); list descent: index >= count => Add(nil) x (index-count) then Add(child), otherwise the reuse-or-Replace(index, child) decision; " +
+			"then child.SetTF(rest, value) on that very child; leaves are Set(seg, value) / Replace(index, value) / padded Add(value); UnsetTF descents perform no mutation of the receiver and leaves are Unset(seg) / Delete(index); short paths and wrong sigils panic before any mutation; returns are fluent. " +
 			"`GetTF(p) yields v afterwards` follows on paper from these clauses; memory for huge indices is not considered.",
 		Rules: []Rule{
-			{ID: "C11.R1", Doc: "SetTF/UnsetTF follow the tree-form skeleton (reject predicate, branch predicates over order types, tf[:p]/tf[p:])", Run: c11Run},
-			{ID: "C11.R2", Doc: "reuse-or-replace triple: TypeOf(seg)==TypeK guard, GetK(seg) reuse, NewK() stored at seg; K is the kind the next sigil needs", Run: func(c *Ctx) {}},
-			{ID: "C11.R3", Doc: "list padding: index>=count => Add(nil) x (index-count) with count captured before the loop, then exactly one Add; else Replace(index, …)", Run: func(c *Ctx) {}},
-			{ID: "C11.R4", Doc: "frame: only the padding, the one store at the addressed segment and the recursive call mutate; UnsetTF descents do not mutate; leaves hit the addressed slot", Run: func(c *Ctx) {}},
+			{ID: "C11.R1", Doc: "short path / wrong sigil / non-numeric list segment panic before any mutation; a well-formed path is never rejected", Run: c11Run},
+			{ID: "C11.R2", Doc: "reuse-or-replace: TypeOf(seg)==TypeK guard, GetK(seg) reuse, NewK() stored at seg; K is the kind the next sigil needs", Run: func(c *Ctx) {}},
+			{ID: "C11.R3", Doc: "list padding: index>=count => Add(nil) x (index-count) then exactly one Add; else Replace(index, …)", Run: func(c *Ctx) {}},
+			{ID: "C11.R4", Doc: "frame: exactly the prescribed mutating calls; UnsetTF descents do not mutate; leaves hit the addressed slot; recursion on the child itself", Run: func(c *Ctx) {}},
 			{ID: "C11.R5", Doc: "fluent return of SetTF/UnsetTF (registered ego on every path)", Run: c11Fluent},
 		},
 	})
@@ -752,437 +675,192 @@ func c11Fluent(c *Ctx) {
 			}
 		}
 	}
-	c.R.Floor("C11.R5", n, 12)
+	c.R.Floor("C11.R5", n, 8)
 }
 
 func c11Run(c *Ctx) {
 	n := 0
 	for _, ct := range c.Inv().Conts {
-		for _, m := range []string{"SetTF", "UnsetTF"} {
-			s := extractTF(c, ct, m)
-			if s.fd == nil {
-				c.Ob("C11.R1", s.name, token.NoPos).Missing("write method not found")
+		for _, meth := range []string{"SetTF", "UnsetTF"} {
+			m := newTFM(c, ct, meth)
+			if m.fd == nil {
+				c.Ob("C11.R1", m.name, token.NoPos).Missing("write method not found")
 				continue
 			}
 			n++
-			if !tfSkeletonRule(c, "C11.R1", s, false) {
+			if m.why != "" {
+				c.Ob("C11.R1", m.name, m.fd.Pos()).Undecided("body outside the path vocabulary: %s", m.why)
 				continue
 			}
-			c.Ob("C11.R1", s.name+"/reject-action", s.reject.Pos()).Check(blockPanicsOnly(c, s.reject.Body.List), "reject action panics before any mutation", "reject action is not a panic")
-			for _, br := range []struct {
-				is   *ast.IfStmt
-				p    types.Object
-				list bool
-				nm   string
-			}{{s.dotBr, s.dot, false, "dot"}, {s.hashBr, s.hash, true, "hash"}} {
-				c10ParseFailure(c, s, br.is.Body.List, br.nm, false, "C11.R1")
-				if m == "SetTF" {
-					c11SetDescent(c, s, br.is, br.p, br.list, br.nm)
-				} else {
-					c11UnsetDescent(c, s, br.is, br.p, br.list, br.nm)
-				}
-			}
-			c10ParseFailure(c, s, s.leaf, "leaf", false, "C11.R1")
-			if m == "SetTF" {
-				c11SetLeaf(c, s)
-			} else {
-				c11UnsetLeaf(c, s)
-			}
+			c11Method(c, m, meth == "SetTF")
 		}
 	}
 	c.R.Floor("C11.R1", n, 4)
 }
 
-// selfMutatorCalls lists calls self.<mutator>(…) in stmts (not descending into function literals).
-func (s *tfSkel) selfCallsIn(n ast.Node) []*ast.CallExpr {
-	var out []*ast.CallExpr
-	inspectNoLit(n, func(m ast.Node) bool {
-		if ce, ok := m.(*ast.CallExpr); ok {
-			if nm, call := s.selfCall(ce); call != nil && nm != "" {
-				out = append(out, call)
-			}
-		}
-		return true
-	})
+func repeat(s string, n int64) []string {
+	var out []string
+	for i := int64(0); i < n; i++ {
+		out = append(out, s)
+	}
 	return out
 }
 
-func (s *tfSkel) valueParam() types.Object {
-	ps := s.fd.Type.Params.List
-	k := 0
-	for _, f := range ps {
-		for _, nm := range f.Names {
-			if k == 1 {
-				return s.c.Info.Defs[nm]
+func c11Method(c *Ctx, m *tfM, isSet bool) {
+	type verdict struct {
+		bad   string
+		count int
+	}
+	res := map[string]*verdict{"reject": {}, "triple": {}, "padding": {}, "frame": {}}
+	fail := func(k, s string, n int64, w string) {
+		if res[k].bad == "" {
+			res[k].bad = "path " + strconv.Quote(s) + " (length " + itoa(int(n)) + "): " + w
+		}
+	}
+	undec := ""
+	lens := []int64{0}
+	if m.ct.IsList {
+		lens = []int64{0, 1, 2, 3}
+	}
+outer:
+	for _, s := range tfStrings() {
+		sp := m.spec(s)
+		if !sp.wrongHd && !sp.valid {
+			continue // empty first segment: outside C11's well-formed paths
+		}
+		for _, n := range lens {
+			obs, why := m.observe(s, n)
+			if why != "" {
+				undec = "path " + strconv.Quote(s) + ": " + why
+				break outer
 			}
-			k++
-		}
-	}
-	return nil
-}
-
-// reuseOrReplace checks `if self.TypeOf(seg) == TypeK { child = self.GetK(seg) } else { child = NewK(); self.<store>(seg, child) }`.
-func c11Triple(c *Ctx, s *tfSkel, is *ast.IfStmt, p types.Object, list bool, nm string, child types.Object, store string) {
-	ob := c.Ob("C11.R2", s.name+"/"+nm+"-reuse-or-replace", is.Pos())
-	K := map[bool]string{true: "List", false: "Object"}[list]
-	be, ok := unparen(is.Cond).(*ast.BinaryExpr)
-	if !ok || be.Op != token.EQL {
-		ob.Fail("the reuse guard is %s, not `self.TypeOf(segment) == %s`: an existing intermediate of another kind is 'reused' (and the getter panics) instead of being replaced", exprStr(is.Cond), kindConstName(list))
-		return
-	}
-	tn, tcall := s.selfCall(be.X)
-	k, isK := c.obj(be.Y).(*types.Const)
-	if tcall == nil {
-		tn, tcall = s.selfCall(be.Y)
-		k, isK = c.obj(be.X).(*types.Const)
-	}
-	if tcall == nil || tn != "TypeOf" || !isK || len(tcall.Args) != 1 || !s.segArgOK(tcall.Args[0], p) {
-		ob.Fail("the reuse guard is %s, not `self.TypeOf(segment) == %s`", exprStr(is.Cond), kindConstName(list))
-		return
-	}
-	if k.Name() != kindConstName(list) {
-		ob.Fail("the guard tests %s but the next sigil needs a %s", k.Name(), K)
-		return
-	}
-	// then: child = self.GetK(seg)
-	good := len(is.Body.List) == 1
-	if good {
-		as, ok := is.Body.List[0].(*ast.AssignStmt)
-		good = ok && len(as.Lhs) == 1 && len(as.Rhs) == 1 && c.obj(as.Lhs[0]) == child
-		if good {
-			gn, gcall := s.selfCall(as.Rhs[0])
-			good = gcall != nil && gn == getterName(list) && len(gcall.Args) == 1 && s.segArgOK(gcall.Args[0], p)
-		}
-	}
-	if !good {
-		ob.Fail("the reuse arm is not `child = self.%s(segment)` (the existing container itself, not a copy)", getterName(list))
-		return
-	}
-	eb, ok := is.Else.(*ast.BlockStmt)
-	good = ok && len(eb.List) == 2
-	if good {
-		as, ok := eb.List[0].(*ast.AssignStmt)
-		good = ok && len(as.Lhs) == 1 && len(as.Rhs) == 1 && c.obj(as.Lhs[0]) == child
-		if good {
-			nc, ok := unparen(as.Rhs[0]).(*ast.CallExpr)
-			good = ok && len(nc.Args) == 0 && c.callee(nc) != nil && c.callee(nc).Name() == ctorName(list) && c.callee(nc).Pkg() == c.Types
-		}
-		if good {
-			es, ok := eb.List[1].(*ast.ExprStmt)
-			good = ok
-			if good {
-				sn, scall := s.selfCall(es.X)
-				good = scall != nil && sn == store && len(scall.Args) == 2 && s.segArgOK(scall.Args[0], p) && c.obj(scall.Args[1]) == child
+			if len(obs) == 0 {
+				undec = "no feasible path for " + strconv.Quote(s)
+				break outer
 			}
-		}
-	}
-	if !good {
-		ob.Fail("the replace arm is not `child = %s(); self.%s(segment, child)`", ctorName(list), store)
-		return
-	}
-	ob.Ok("guard TypeOf(seg) == %s; reuse self.%s(seg); else %s() stored with %s(seg, child) — one kind throughout, the kind the next sigil needs", kindConstName(list), getterName(list), ctorName(list), store)
-}
-
-func c11SetDescent(c *Ctx, s *tfSkel, is *ast.IfStmt, p types.Object, list bool, nm string) {
-	fob := c.Ob("C11.R4", s.name+"/"+nm+"-frame", is.Pos())
-	body := is.Body.List
-	// child variable: declared `var child K`
-	var child types.Object
-	for _, st := range body {
-		if ds, ok := st.(*ast.DeclStmt); ok {
-			if gd, ok := ds.Decl.(*ast.GenDecl); ok && len(gd.Specs) == 1 {
-				if vs, ok := gd.Specs[0].(*ast.ValueSpec); ok && len(vs.Names) == 1 && len(vs.Values) == 0 {
-					if t := c.typeOf(vs.Type); t != nil && c.Inv().ContByIface(t) != nil && c.Inv().ContByIface(t).IsList == list {
-						child = c.Info.Defs[vs.Names[0]]
+			for _, o := range obs {
+				if strings.HasPrefix(o.End, "runtime-panic") {
+					fail("reject", s, n, "a byte of the path is indexed beyond its length")
+					continue
+				}
+				if sp.wrongHd || (m.ct.IsList && !sp.idxOK) {
+					res["reject"].count++
+					if o.End != "panic" || len(o.Trace) != 0 {
+						fail("reject", s, n, "an ill-formed path does not panic before any mutation: "+o.String())
 					}
+					continue
+				}
+				if o.End == "panic" {
+					fail("reject", s, n, "a well-formed path panics: "+o.String())
+					continue
+				}
+				seg := m.segArg(sp)
+				var want [][]string // alternatives
+				leaf := sp.rest == ""
+				K := sp.nextIsL
+				childNew := ctorName(K) + "()"
+				childOld := "self." + getterName(K) + "(" + seg + ")"
+				rec := func(child string) string {
+					if isSet {
+						return child + ".SetTF(" + strconv.Quote(sp.rest) + ", value)"
+					}
+					return child + ".UnsetTF(" + strconv.Quote(sp.rest) + ")"
+				}
+				kindAtom := "TypeOf(" + seg + ")==" + kindConstName(K)
+				guardTrue := hasOracle(o, kindAtom, true)
+				guardFalse := hasOracle(o, kindAtom, false)
+				switch {
+				case !isSet && leaf && !m.ct.IsList:
+					want = [][]string{{"self.Unset(" + seg + ")"}}
+				case !isSet && leaf:
+					want = [][]string{{"self.Delete(" + seg + ")"}}
+				case !isSet:
+					want = [][]string{{rec(childOld)}}
+				case leaf && !m.ct.IsList:
+					want = [][]string{{"self.Set(" + seg + ", value)"}}
+				case leaf:
+					res["padding"].count++
+					if sp.idx >= n {
+						want = [][]string{append(repeat("self.Add(nil)", sp.idx-n), "self.Add(value)")}
+					} else {
+						want = [][]string{{"self.Replace(" + seg + ", value)"}}
+					}
+				case !m.ct.IsList:
+					res["triple"].count++
+					if guardTrue {
+						want = [][]string{{rec(childOld)}}
+					} else if guardFalse {
+						want = [][]string{{"self.Set(" + seg + ", " + childNew + ")", rec(childNew)}}
+					} else {
+						fail("triple", s, n, "the reuse-or-replace decision is not `self.TypeOf(segment) == "+kindConstName(K)+"`: an existing intermediate of another kind is 'reused' (and the getter panics) instead of being replaced — "+o.String())
+						continue
+					}
+				default:
+					res["padding"].count++
+					if sp.idx >= n {
+						want = [][]string{append(append(repeat("self.Add(nil)", sp.idx-n), "self.Add("+childNew+")"), rec(childNew))}
+					} else {
+						res["triple"].count++
+						if guardTrue {
+							want = [][]string{{rec(childOld)}}
+						} else if guardFalse {
+							want = [][]string{{"self.Replace(" + seg + ", " + childNew + ")", rec(childNew)}}
+						} else {
+							fail("triple", s, n, "the reuse-or-replace decision is not `self.TypeOf(index) == "+kindConstName(K)+"` — "+o.String())
+							continue
+						}
+					}
+				}
+				res["frame"].count++
+				got := strings.Join(o.Trace, "; ")
+				match := false
+				for _, w := range want {
+					if got == strings.Join(w, "; ") {
+						match = true
+					}
+				}
+				if !match {
+					k := "frame"
+					if strings.Contains(got, "Add(nil)") || (len(want) > 0 && len(want[0]) > 0 && strings.Contains(want[0][0], "Add(nil)")) || (m.ct.IsList && isSet && sp.idx >= n) {
+						k = "padding"
+					}
+					fail(k, s, n, "mutating calls are ["+got+"], prescribed ["+strings.Join(want[0], "; ")+"]")
 				}
 			}
 		}
 	}
-	if child == nil {
-		fob.Undecided("the intermediate container variable (of the kind the next sigil needs) was not found")
+	if undec != "" {
+		c.Ob("C11.R1", m.name+"/fold", m.fd.Pos()).Undecided("%s", undec)
 		return
 	}
-	// tail: child.SetTF(tf[p:], value); return self
-	if len(body) < 3 {
-		fob.Fail("branch too short")
-		return
-	}
-	es, ok := body[len(body)-2].(*ast.ExprStmt)
-	good := ok
-	if good {
-		rc, ok := es.X.(*ast.CallExpr)
-		good = ok && len(rc.Args) == 2 && s.isRest(rc.Args[0], p) && c.obj(rc.Args[1]) == s.valueParam()
-		if good {
-			rsel, ok := unparen(rc.Fun).(*ast.SelectorExpr)
-			good = ok && c.obj(rsel.X) == child && c.callee(rc) != nil && c.callee(rc).Name() == "SetTF"
-		}
-	}
-	if !good {
-		fob.Fail("the branch does not continue with child.SetTF(tf[%s:], value) on the intermediate itself", nm)
-		return
-	}
-	// the decision statement
-	var decision *ast.IfStmt
-	for _, st := range body {
-		if x, ok := st.(*ast.IfStmt); ok && x.Else != nil {
-			decision = x
-		}
-	}
-	if decision == nil {
-		fob.Fail("no reuse-or-replace decision found")
-		return
-	}
-	allowed := map[*ast.CallExpr]bool{}
-	if !s.ct.IsList {
-		c11Triple(c, s, decision, p, list, nm, child, "Set")
-	} else {
-		// if index >= count { child = NewK(); pad; Add(child) } else { triple with Replace }
-		c11Padding(c, s, decision, p, nm, func(then *ast.BlockStmt) (ast.Expr, bool) {
-			if len(then.List) != 3 {
-				return nil, false
-			}
-			as, ok := then.List[0].(*ast.AssignStmt)
-			if !ok || len(as.Lhs) != 1 || len(as.Rhs) != 1 || c.obj(as.Lhs[0]) != child {
-				return nil, false
-			}
-			nc, ok := unparen(as.Rhs[0]).(*ast.CallExpr)
-			if !ok || len(nc.Args) != 0 || c.callee(nc) == nil || c.callee(nc).Name() != ctorName(list) {
-				return nil, false
-			}
-			return ast.NewIdent(child.Name()), true
-		}, child, 1)
-		if eb, ok := decision.Else.(*ast.BlockStmt); ok && len(eb.List) == 1 {
-			if inner, ok := eb.List[0].(*ast.IfStmt); ok {
-				c11Triple(c, s, inner, p, list, nm, child, "Replace")
-			} else {
-				c.Ob("C11.R2", s.name+"/"+nm+"-reuse-or-replace", decision.Pos()).Fail("the index < count arm is not a reuse-or-replace decision")
-			}
+	report := func(rule, key, k, okMsg string) {
+		ob := c.Ob(rule, m.name+"/"+key, m.fd.Pos())
+		if res[k].bad != "" {
+			ob.Fail("%s", res[k].bad)
 		} else {
-			c.Ob("C11.R2", s.name+"/"+nm+"-reuse-or-replace", decision.Pos()).Fail("the index < count arm is not a single reuse-or-replace decision")
+			ob.Ok("%s (%d folded cases)", okMsg, res[k].count)
 		}
 	}
-	// frame: mutator calls on self are only inside the decision statement
-	a := c.E3()
-	bad := ""
-	for _, st := range body {
-		if st == ast.Stmt(decision) {
-			continue
-		}
-		for _, call := range s.selfCallsIn(st) {
-			if f := c.callee(call); f != nil && mutatorNames[f.Name()] && !allowed[call] {
-				bad = "self." + f.Name() + " outside the reuse-or-replace decision"
-			}
+	report("C11.R1", "reject", "reject", "ill-formed paths panic before any mutation; well-formed paths are never rejected")
+	if isSet {
+		report("C11.R2", "reuse-or-replace", "triple", "guard TypeOf(seg) == kind the next sigil needs; reuse self.GetK(seg); else NewK() stored at seg")
+		if m.ct.IsList {
+			report("C11.R3", "padding", "padding", "index >= count: Add(nil) exactly index-count times, then one Add => the new element lands at `index`; otherwise Replace(index, …)")
 		}
 	}
-	_ = a
-	last, isRet := body[len(body)-1].(*ast.ReturnStmt)
-	if bad == "" && (!isRet || len(last.Results) != 1 || !c.isEgo(s.fd, last.Results[0])) {
-		bad = "branch does not end in `return ego`"
-	}
-	if bad != "" {
-		fob.Fail("%s", bad)
-	} else {
-		fob.Ok("the receiver is mutated only by the store at the addressed segment (and padding); the rest is delegated to the intermediate itself")
-	}
+	report("C11.R4", "frame", "frame", "exactly the prescribed mutating calls, on the addressed slot and on the child itself")
 }
 
-// c11Padding checks `if index >= count { [prefix]; for i := 0; i < index-count; i++ { self.Add(nil) }; self.Add(X) } …`
-// thenPrefix validates the statements before the loop and returns the expression X expected in the final Add.
-func c11Padding(c *Ctx, s *tfSkel, decision *ast.IfStmt, p types.Object, nm string, thenPrefix func(*ast.BlockStmt) (ast.Expr, bool), xObj types.Object, skip int) {
-	ob := c.Ob("C11.R3", s.name+"/"+nm+"-padding", decision.Pos())
-	be, ok := unparen(decision.Cond).(*ast.BinaryExpr)
-	if !ok {
-		ob.Fail("padding decision is not a comparison")
-		return
-	}
-	idx, cnt, op := be.X, be.Y, be.Op
-	if op == token.LEQ || op == token.LSS { // count <= index
-		idx, cnt = cnt, idx
-		op = map[token.Token]token.Token{token.LEQ: token.GEQ, token.LSS: token.GTR}[op]
-	}
-	isIdx := func(e ast.Expr) bool {
-		if p == nil {
-			return s.leafArgOK(e)
-		}
-		return s.segArgOK(e, p)
-	}
-	// count: single-assignment local defined before the decision as the receiver's count
-	isCount := func(e ast.Expr) bool {
-		o := s.c.obj(e)
-		if o == nil {
-			return false
-		}
-		d, ok := s.alias[o]
-		return ok && c.isCountOfRecv(s.fd, d) && o.Pos() < decision.Pos()
-	}
-	if op != token.GEQ || !isIdx(idx) || !isCount(cnt) {
-		ob.Fail("padding is not decided by `index >= count` with the count captured in a local before any Add (found %s)", exprStr(decision.Cond))
-		return
-	}
-	then := decision.Body
-	if _, ok := thenPrefix(then); !ok {
-		ob.Fail("unexpected statements before the padding loop")
-		return
-	}
-	rest := then.List[skip:]
-	if len(rest) != 2 {
-		ob.Fail("after the prefix, expected exactly: padding loop, one final Add")
-		return
-	}
-	fs, ok := rest[0].(*ast.ForStmt)
-	if !ok {
-		ob.Fail("no padding loop")
-		return
-	}
-	h, ok := c.forHeader(fs)
-	if !ok {
-		ob.Undecided("padding loop header outside the vocabulary")
-		return
-	}
-	s0, okS := c.constInt(h.Start)
-	// bound must be index - count over single-assignment locals only (not re-evaluated state)
-	bb, okB := unparen(h.Bound).(*ast.BinaryExpr)
-	if !okS || s0 != 0 || h.Step != 1 || h.Incl || !okB || bb.Op != token.SUB || !isIdx(bb.X) || !isCount(bb.Y) {
-		ob.Fail("the padding loop does not run exactly index-count times for i = 0, 1, … (start %s, bound %s): the new element would not land at the requested index; the count must be the value captured before the loop, not re-read while the list grows", exprStr(h.Start), exprStr(h.Bound))
-		return
-	}
-	good := len(fs.Body.List) == 1 && loopHasEarlyExit(fs) == ""
-	if good {
-		es, ok := fs.Body.List[0].(*ast.ExprStmt)
-		good = ok
-		if good {
-			an, acall := s.selfCall(es.X)
-			good = acall != nil && an == "Add" && len(acall.Args) == 1 && c.isNil(acall.Args[0])
-		}
-	}
-	if !good {
-		ob.Fail("padding loop body is not exactly self.Add(nil)")
-		return
-	}
-	// final Add(X)
-	var fin ast.Expr
-	switch x := rest[1].(type) {
-	case *ast.ExprStmt:
-		fin = x.X
-	case *ast.ReturnStmt:
-		if len(x.Results) == 1 {
-			fin = x.Results[0]
-		}
-	}
-	an, acall := s.selfCall(fin)
-	if acall == nil || an != "Add" || len(acall.Args) != 1 || c.obj(acall.Args[0]) != xObj || xObj == nil {
-		ob.Fail("the padding is not followed by exactly one self.Add(<new element>)")
-		return
-	}
-	ob.Ok("index >= count: Add(nil) exactly index-count times (count captured before), then one Add => the new element lands at `index`")
-}
+// keep sort imported for deterministic helpers
+var _ = sort.Strings
 
-func c11SetLeaf(c *Ctx, s *tfSkel) {
-	ob := c.Ob("C11.R4", s.name+"/leaf", s.leaf[0].Pos())
-	val := s.valueParam()
-	if !s.ct.IsList {
-		r, ok := s.leaf[len(s.leaf)-1].(*ast.ReturnStmt)
-		good := ok && len(s.leaf) == 1 && len(r.Results) == 1
-		if good {
-			sn, scall := s.selfCall(r.Results[0])
-			good = scall != nil && sn == "Set" && len(scall.Args) == 2 && s.leafArgOK(scall.Args[0]) && c.obj(scall.Args[1]) == val
-		}
-		ob.Check(good, "leaf = return self.Set(remaining segment, value)", "object leaf is not `return self.Set(segment, value)`")
-		return
+// termEpoch: the memory epoch at which a call / len term was evaluated.
+func termEpoch(t Term) int {
+	switch x := t.(type) {
+	case TCall:
+		return x.Epoch
+	case TBuiltin:
+		return x.Epoch
 	}
-	// list leaf: parse; count := Count(); if index >= count { pad; return Add(value) }; return Replace(index, value)
-	var decision *ast.IfStmt
-	for _, st := range s.leaf {
-		if x, ok := st.(*ast.IfStmt); ok {
-			if be, ok := unparen(x.Cond).(*ast.BinaryExpr); ok && !c.isNil(be.Y) && !c.isNil(be.X) {
-				decision = x
-			}
-		}
-	}
-	if decision == nil {
-		ob.Fail("no padding decision in the list leaf")
-		return
-	}
-	c11Padding(c, s, decision, nil, "leaf", func(then *ast.BlockStmt) (ast.Expr, bool) { return nil, true }, val, 0)
-	r, ok := s.leaf[len(s.leaf)-1].(*ast.ReturnStmt)
-	good := ok && len(r.Results) == 1
-	if good {
-		rn, rcall := s.selfCall(r.Results[0])
-		good = rcall != nil && rn == "Replace" && len(rcall.Args) == 2 && s.leafArgOK(rcall.Args[0]) && c.obj(rcall.Args[1]) == val
-	}
-	// no other mutator calls outside the decision and the final return
-	for _, st := range s.leaf[:len(s.leaf)-1] {
-		if st == ast.Stmt(decision) {
-			continue
-		}
-		for _, call := range s.selfCallsIn(st) {
-			if f := c.callee(call); f != nil && mutatorNames[f.Name()] {
-				good = false
-			}
-		}
-	}
-	ob.Check(good, "index < count: return self.Replace(index, value) — exactly the addressed slot", "list leaf does not end in `return self.Replace(index, value)` or mutates elsewhere")
-}
-
-func c11UnsetDescent(c *Ctx, s *tfSkel, is *ast.IfStmt, p types.Object, list bool, nm string) {
-	ob := c.Ob("C11.R4", s.name+"/"+nm+"-frame", is.Pos())
-	// no mutator call on self; exactly: child := self.GetK(seg); child.UnsetTF(tf[p:]); return ego
-	for _, call := range s.selfCallsIn(is.Body) {
-		if f := c.callee(call); f != nil && mutatorNames[f.Name()] {
-			ob.Fail("UnsetTF's descent mutates the receiver with %s: more than the addressed slot changes", f.Name())
-			return
-		}
-	}
-	var rec *ast.CallExpr
-	inspectNoLit(is.Body, func(n ast.Node) bool {
-		if ce, ok := n.(*ast.CallExpr); ok {
-			if f := c.callee(ce); f != nil && f.Name() == "UnsetTF" {
-				rec = ce
-			}
-		}
-		return true
-	})
-	if rec == nil || len(rec.Args) != 1 || !s.isRest(rec.Args[0], p) {
-		ob.Fail("descent does not continue with child.UnsetTF(tf[%s:])", nm)
-		return
-	}
-	rsel, ok := unparen(rec.Fun).(*ast.SelectorExpr)
-	if !ok {
-		ob.Fail("unexpected recursive call")
-		return
-	}
-	gn, gcall := s.selfCall(s.resolve(rsel.X))
-	if gcall == nil || gn != getterName(list) || len(gcall.Args) != 1 || !s.segArgOK(gcall.Args[0], p) {
-		ob.Fail("the child is not self.%s(segment) (the stored container itself)", getterName(list))
-		return
-	}
-	last, isRet := is.Body.List[len(is.Body.List)-1].(*ast.ReturnStmt)
-	if !isRet || len(last.Results) != 1 || !c.isEgo(s.fd, last.Results[0]) {
-		ob.Fail("descent does not end in `return ego`")
-		return
-	}
-	ob.Ok("no mutation of the receiver; child = self.%s(seg) (panics on an unresolvable step before anything changed); child.UnsetTF(rest)", getterName(list))
-}
-
-func c11UnsetLeaf(c *Ctx, s *tfSkel) {
-	ob := c.Ob("C11.R4", s.name+"/leaf", s.leaf[0].Pos())
-	r, ok := s.leaf[len(s.leaf)-1].(*ast.ReturnStmt)
-	want := "Unset"
-	if s.ct.IsList {
-		want = "Delete"
-	}
-	good := ok && len(r.Results) == 1
-	if good {
-		n, call := s.selfCall(r.Results[0])
-		good = call != nil && n == want && len(call.Args) == 1 && s.leafArgOK(call.Args[0]) && !call.Ellipsis.IsValid()
-	}
-	for _, st := range s.leaf[:len(s.leaf)-1] {
-		for _, call := range s.selfCallsIn(st) {
-			if f := c.callee(call); f != nil && mutatorNames[f.Name()] {
-				good = false
-			}
-		}
-	}
-	ob.Check(good, "leaf = return self."+want+"(addressed segment) and nothing else mutates", "leaf is not `return self."+want+"(segment)`")
+	return -1
 }
